@@ -290,7 +290,22 @@ fn ed_key() -> CombinedKey {
 }
 
 /// The static key of party `idx` (deterministic; `CombinedKey` is not `Clone`).
+/// Node 1 and the attacker hold two unrelated secp256k1 keys whose node ids agree in their first two
+/// and their last two bytes (a pair found by a birthday search over 2^17 keys): an identity check that
+/// looks at an abbreviated or partly compared id cannot tell them apart, a check of the id can.
+const COLLIDING_SECRETS: [(u64, &str); 2] = [
+    (1, "e7b8d99649d04791312ac3e1161a5c0bfb26c8e9e0fc315678889265a473967c"),
+    (ATTACKER, "99229be5b506364348672095f8e8b0355580fdfb139be0142be4f223ebce0bdd"),
+];
+
 fn key_of_idx(idx: u64) -> CombinedKey {
+    if let Some((_, h)) = COLLIDING_SECRETS.iter().find(|(i, _)| *i == idx) {
+        if let Ok(mut b) = hex::decode(h) {
+            if let Ok(k) = CombinedKey::secp256k1_from_bytes(&mut b) {
+                return k;
+            }
+        }
+    }
     key_from(&mut Rng::new(0xABCD_0000 + idx))
 }
 
